@@ -135,6 +135,9 @@ class Cfg(object):
                       "-fno-sanitize=nonnull-attribute -fno-omit-frame-pointer")
         elif self.instr == "releaseg":
             cflags = "-g"
+        elif self.instr == "gcov":
+            cflags = "-g -O0 --coverage"       # audit builds only (tools/coverage_audit.py)
+            a.append("-DCMAKE_BUILD_TYPE=Debug")
         if cflags:
             a += ["-DCMAKE_C_FLAGS=" + cflags, "-DCMAKE_CXX_FLAGS=" + cflags]
         return a
